@@ -1903,6 +1903,15 @@ type primaryCtx struct {
 
 func newPrimaryCtx(parent context.Context, primaryCh chan struct{}) *primaryCtx {
 	inner, cancel := context.WithCancelCause(parent)
+
+	// A context obtained while the node is not primary is done from the start.
+	select {
+	case <-primaryCh:
+		cancel(ErrLeaseExpired)
+		return &primaryCtx{Context: inner, primaryCh: primaryCh}
+	default:
+	}
+
 	go func() {
 		select {
 		case <-primaryCh:
